@@ -64,6 +64,8 @@ def _gen_module(rng, name, cfg, others):
         "fault": None,
         "fault_pos": rng.choice(["before", "after"]),
         "imports": [],
+        # a legal non-UTF-8 source (PEP 263 cookie + a latin-1 byte): Griffe reads sources as UTF-8
+        "latin1": rng.random() < cfg.get("p_latin1", 0.0),
     }
     if others and rng.random() < 0.5:
         m["imports"].append(rng.choice(others))
@@ -73,7 +75,7 @@ def _gen_module(rng, name, cfg, others):
 
 
 def generate(rng, opts):
-    cfg = {"p_path": rng.choice([0.0, 0.5, 1.0]), "p_ext": rng.choice([0.0, 0.4, 0.8]), "compiled": rng.random() < 0.6, "stubs": rng.random() < 0.3}
+    cfg = {"p_latin1": rng.choice([0.0, 0.0, 0.15]), "p_path": rng.choice([0.0, 0.5, 1.0]), "p_ext": rng.choice([0.0, 0.4, 0.8]), "compiled": rng.random() < 0.6, "stubs": rng.random() < 0.3}
     names = [PK] + [f"{PK}.{m}" for m in rng.sample(["a", "b", "c", "json", "types"], rng.choice([0, 1, 2, 3]))]
     if rng.random() < 0.4:
         names += [f"{PK}.sub", f"{PK}.sub.d"]
@@ -162,7 +164,10 @@ def render_world(world):
                 lines.append(f"import {imp}")
         lines += ["", "def f():", '    """doc"""', "    return 1", "", "class K:", "    x = 1", ""]
         rel = "/".join(n.split(".")) + ("/__init__.py" if n in pkgs else ".py")
-        files[rel] = "\n".join(lines) + "\n"
+        if m.get("latin1"):
+            files[rel] = ("# -*- coding: latin-1 -*-\n# caf\xe9\n" + "\n".join(lines) + "\n").replace("<ROOT>", "<ROOT>").encode("latin-1")
+        else:
+            files[rel] = "\n".join(lines) + "\n"
     import importlib.machinery as mach
 
     for c in world["compiled"]:
@@ -474,7 +479,9 @@ def execute(plan, ctx):
 
 
 def _world_has_static_obstacle(world, op):
-    return False  # generated sources are always syntactically valid: a static load of an existing package must succeed
+    # generated sources are always syntactically valid; only a non-UTF-8 top-level __init__ makes a static load fail
+    top = str(op["target"]).split(".")[0] if not isinstance(op["target"], Path) and op["target"] != "path" else PK
+    return bool(world["modules"].get(top, {}).get("latin1"))
 
 
 def shrink_candidates(plan):
